@@ -17,10 +17,12 @@ ASSUMPTIONS = ['an unfinished request is one whose process is, in truth, not yet
                'the requester still sees the target RUNNING',
                'the STOP strategy clause "the application is then stopped" is not decided here (see C09/C06)']
 FLOORS = {'quick': {'start_emissions': 1500, 'process_order_checks': 1000, 'automatic_emissions': 600,
-                    'skip_checks': 200, 'required_failures': 20, 'restart_sequence_refused_jobs_in_progress': 60},
+                    'skip_checks': 200, 'required_failures': 20, 'restart_sequence_refused_jobs_in_progress': 60,
+                    'applications_requested_behind_a_queued_process_of_theirs': 25},
           'thorough': {'start_emissions': 40000, 'process_order_checks': 25000, 'automatic_emissions': 15000,
                        'skip_checks': 5000, 'required_failures': 500,
-                       'restart_sequence_refused_jobs_in_progress': 1000}}
+                       'restart_sequence_refused_jobs_in_progress': 1000,
+                       'applications_requested_behind_a_queued_process_of_theirs': 400}}
 COUNT = {'quick': 480, 'thorough': 12000}
 BUDGET_S = {'quick': 55, 'thorough': 540}
 
@@ -44,16 +46,29 @@ CONCURRENT_KNOBS = {'n_min': 2, 'n_max': 4,
 CONCURRENT_COUNT = {'quick': 200, 'thorough': 3000}
 
 
+# and a family where, on one instance, a single process of an application (preferably a wait_exit one) is requested
+# while the Starter is busy with another application, and the application itself is requested right behind it
+QUEUED_KNOBS = {'n_min': 1, 'n_max': 3,
+                'apps': {'n_apps': (2, 3), 'n_progs': (2, 4), 'seq_max': 3, 'allow_wait_exit': True, 'wait_exit_p': 0.5,
+                         'startsecs': (3, 8), 'per_instance_diff': 0.0, 'managed_p': 1.0, 'autorestart': ('false',)},
+                'behaviours': ['normal'], 'actions': ['queued_process_then_application'], 'n_actions': [1, 2],
+                'gaps': [20.0, 40.0], 'early_p': 0.0}
+QUEUED_COUNT = {'quick': 160, 'thorough': 3000}
+
+
 def plan(tier, seed):
     return [{'seed': seed * 1000003 + i} for i in range(COUNT[tier])] + \
         [{'seed': seed * 1000003 + 800000 + i, 'family': 'concurrent-restart-sequence'}
-         for i in range(CONCURRENT_COUNT[tier])]
+         for i in range(CONCURRENT_COUNT[tier])] + \
+        [{'seed': seed * 1000003 + 700000 + i, 'family': 'application-behind-a-queued-process'}
+         for i in range(QUEUED_COUNT[tier])]
 
 
 def run_case(case):
     tracker = Tracker()
     mon = StartSequenceMonitor(tracker)
-    run = Run(case, CONCURRENT_KNOBS if case.get('family') == 'concurrent-restart-sequence' else KNOBS,
+    run = Run(case, {'concurrent-restart-sequence': CONCURRENT_KNOBS,
+                     'application-behind-a-queued-process': QUEUED_KNOBS}.get(case.get('family'), KNOBS),
               [tracker, mon])
     violations = run.execute()
     for action in run.actions:
